@@ -3,6 +3,7 @@ package props
 import (
 	"fmt"
 	"math/bits"
+	"runtime/debug"
 
 	"github.com/openacid/low/bitmap"
 
@@ -15,6 +16,8 @@ import (
 type c01Case struct {
 	Words gen.Words `json:"words"`
 	I     int32     `json:"i"`
+	// Then: for "retained" cases, the bitmap whose indexes were built afterwards
+	Then gen.Words `json:"then,omitempty"`
 }
 
 func init() {
@@ -22,7 +25,7 @@ func init() {
 		ID:    "C01",
 		Level: "exploration",
 		Rule: "E1 bounded-exhaustive enumeration: every bitmap of B(n,0) ∪ B1(m) (≤n words over the 12-word core alphabet; ≤m words with exactly one word from the wide alphabet of single bits, low-j masks, complements and adjacent pairs) " +
-			"× {IndexRank64 (no option, false, true), IndexRank128} and × every position i × {Rank64 on the plain index, Rank64 on the trailing index, Rank128}; oracle = bit-by-bit running count. " +
+			"× {IndexRank64 (no option, false, true), IndexRank128} and × every position i × {Rank64 on the plain index, Rank64 on the trailing index, Rank128}; oracle = bit-by-bit running count; plus a length sweep (every length 0..N words × 4 word patterns, all index flavours, all positions) in which every returned index is compared once more after the NEXT bitmap's indexes have been built (an index must not change because another one is built). " +
 			"A case is one (bitmap, position) pair or one (bitmap, index flavour); it is non-trivial when the bitmap has ≥2 words, at least one 1 and at least one 0. Cases are distinct by construction (product of duplicate-free alphabets).",
 		Assumptions: []string{
 			"64-bit words outside the core/wide alphabets and bitmaps longer than the bound are not enumerated (small-scope: the code's case splits are bit offset mod 64, word parity, left/right 128-bit half)",
@@ -114,6 +117,16 @@ func c01Run(c *mc.Ctx) {
 		}
 		c.Expect(exp)
 	}
+	{
+		maxLen := c.Pick(520, 2100)
+		c.Set("length_sweep_max_words", maxLen)
+		var exp int64
+		for l := 0; l <= maxLen; l++ {
+			exp += 4 * (3 + 1 + 2*64*int64(l))
+		}
+		c.Expect(exp - 1) // the very first bitmap has no predecessor to re-check
+		c01Sweep(c, maxLen)
+	}
 	c.Par(len(shards), func(si int) {
 		if c.TooMany() {
 			return
@@ -194,6 +207,101 @@ func c01Run(c *mc.Ctx) {
 	})
 }
 
+// c01SweepBitmap is pattern p of the length sweep at length l; every (l,p)
+// gives different words, so a buffer reused between calls shows.
+func c01SweepBitmap(l, p int) []uint64 {
+	w := make([]uint64, l)
+	for i := range w {
+		switch p {
+		case 0:
+			w[i] = ^uint64(0)
+		case 1:
+			w[i] = []uint64{0xAAAAAAAAAAAAAAAA, 0x5555555555555555, 0}[(i+l)%3]
+		case 2:
+			if i == l-1 {
+				w[i] = 1<<63 | uint64(l)
+			}
+		default:
+			w[i] = uint64(i+3*l+1) * 0x9e3779b97f4a7c15
+		}
+	}
+	return w
+}
+
+// c01Sweep: every length 0..maxLen × 4 patterns, in ONE goroutine with the
+// collector off (so that pooled buffers, if a change introduces any, are handed
+// back deterministically): all index flavours, all positions, and — after the
+// NEXT bitmap's indexes have been built — the previous bitmap's returned indexes
+// once more (an index must not change because another one was built).
+func c01Sweep(c *mc.Ctx, maxLen int) {
+	defer debug.SetGCPercent(debug.SetGCPercent(-1))
+	type kept struct {
+		w               []uint64
+		i64, i64t, i128 []int32
+		w64, w64t, w128 []int32
+	}
+	var prev *kept
+	var evals, nontriv int64
+	for l := 0; l <= maxLen; l++ {
+		for p := 0; p < 4; p++ {
+			w := c01SweepBitmap(l, p)
+			order := int64(1)<<56 | int64(l)<<8 | int64(p)
+			pre := make([]int32, 0, l)
+			n := int32(0)
+			for _, x := range w {
+				pre = append(pre, n)
+				n += naivePop(x)
+			}
+			cur := &kept{w: w, w64: pre, w64t: append(append([]int32(nil), pre...), n), w128: ref128(pre, n, l)}
+			var p1, p3, p4 string
+			cur.i64, p1 = idxRank64(w)
+			cur.i64t, p3 = idxRank64(w, true)
+			cur.i128, p4 = idxRank128(w)
+			cs := func(i int32) c01Case { return c01Case{Words: append(gen.Words(nil), w...), I: i} }
+			if p1 != "" || !eqI32(cur.i64, cur.w64) {
+				c.Fail(order, "IndexRank64", "IndexRank64", cs(0), p1+fmt.Sprint(cur.i64), fmt.Sprint(cur.w64))
+			}
+			if p3 != "" || !eqI32(cur.i64t, cur.w64t) {
+				c.Fail(order, "IndexRank64/true", "IndexRank64", cs(0), p3+fmt.Sprint(cur.i64t), fmt.Sprint(cur.w64t))
+			}
+			if p4 != "" || !eqI32(cur.i128, cur.w128) {
+				c.Fail(order, "IndexRank128", "IndexRank128", cs(0), p4+fmt.Sprint(cur.i128), fmt.Sprint(cur.w128))
+			}
+			evals += 3
+			if prev != nil {
+				if !eqI32(prev.i64, prev.w64) || !eqI32(prev.i64t, prev.w64t) || !eqI32(prev.i128, prev.w128) {
+					c.Fail(order, "retained", "retained", c01Case{Words: append(gen.Words(nil), prev.w...), Then: append(gen.Words(nil), w...)}, "", "")
+					prev.i64, prev.i64t, prev.i128 = prev.w64, prev.w64t, prev.w128 // report once
+				}
+				evals++
+				c.Add("retained_index_rechecks", 1)
+			}
+			if p1 == "" && p3 == "" && p4 == "" {
+				run := int32(0)
+				for i := int32(0); i < int32(64*l); i++ {
+					bit := int32(w[i>>6] >> uint(i&63) & 1)
+					if a, b, pp := rank64(w, cur.i64, i); pp || a != run || b != bit {
+						c.Fail(order, "Rank64", "Rank64", cs(i), "", "")
+					}
+					if a, b, pp := rank128(w, cur.i128, i); pp || a != run || b != bit {
+						c.Fail(order, "Rank128", "Rank128", cs(i), "", "")
+					}
+					run += bit
+				}
+			}
+			evals += 2 * 64 * int64(l)
+			prev = cur
+			if c.TooMany() {
+				break
+			}
+		}
+	}
+	nontriv = evals
+	c.Count(evals, nontriv)
+	c.Add("length_sweep_bitmaps", int64(4*(maxLen+1)))
+	c.ForceSample(map[string]interface{}{"length_sweep": fmt.Sprintf("every length 0..%d words x 4 patterns", maxLen), "example_words": gen.Words(c01SweepBitmap(3, 3))})
+}
+
 // ref128 builds the 128-bit checkpoint index from the statement: len/2+1
 // entries, entry k = ones before bit 128k.
 func ref128(pre []int32, total int32, nwords int) []int32 {
@@ -222,6 +330,16 @@ func c01Judge(kind string, cs c01Case) (got, want string) {
 	want64t := append(append([]int32(nil), pre...), n)
 	want128 := ref128(pre, n, len(w))
 	switch kind {
+	case "retained":
+		defer debug.SetGCPercent(debug.SetGCPercent(-1))
+		a1, _ := idxRank64(w)
+		a2, _ := idxRank64(w, true)
+		a3, _ := idxRank128(w)
+		then := []uint64(cs.Then)
+		idxRank64(then)
+		idxRank64(then, true)
+		idxRank128(then)
+		return fmt.Sprint("after building the indexes of another bitmap: ", a1, a2, a3), fmt.Sprint("after building the indexes of another bitmap: ", pre, want64t, want128)
 	case "IndexRank64":
 		r, p := idxRank64(w)
 		return p + fmt.Sprint(r), fmt.Sprint(pre)
